@@ -11,5 +11,8 @@ mkdir -p lean/LinkVerif/Gen run evidence replays
 ./extract/bin/lvextract -repo "${VERIF_REPO:-/repo}" -out lean/LinkVerif/Gen
 (cd lean && lake build)
 cp "${VERIF_REPO:-/repo}/go.sum" harness/go.sum
+# harness/go.mod is tracked, and bin/check re-points its replace line at VERIF_REPO on every run: never trust the path it was
+# left with (a run against a scratch worktree leaves that worktree's path behind) -- point it at the tree under check first.
+(cd harness && go mod edit -replace "github.com/lianxiangcloud/linkchain=${VERIF_REPO:-/repo}")
 (cd harness && CGO_LDFLAGS=-L"$(pwd)/../stubs/lib" go build -tags verif -o bin/lvharness ./cmd/lvharness)
 echo setup-ok
